@@ -757,10 +757,46 @@ fn oracle(f: F, o: Opts, img: &Img, enc: &[u8], wit: Option<&[u8]>, msgs: &mut V
     }
 }
 
+/// (offset, length) of the pieces of a single-colour block that the discrete encoder model predicts
+/// (availability rule only; the VALUES are the model's, compared in the tie)
+fn predicted_pieces(f: F, q: char, c: [u8; 4]) -> Vec<(usize, usize)> {
+    let corner = |e: u8| e == 0 || e == 255;
+    let bc4: Vec<(usize, usize)> = if q == 'U' { vec![] } else { vec![(0, 8)] };
+    let col = |ok: bool| -> Vec<(usize, usize)> { if ok { vec![(8, 8)] } else { vec![] } };
+    let [r, g, b, a] = c;
+    let c3 = corner(r) && corner(g) && corner(b);
+    match f {
+        F::Bc7 => vec![(0, 16)],
+        F::Bc1 => {
+            if a >= 128 && !c3 {
+                vec![]
+            } else {
+                vec![(0, 8)]
+            }
+        }
+        F::Bc2 => col(c3),
+        F::Bc2p => col(a == 255 && c3),
+        F::Bc3 => [bc4, col(c3)].concat(),
+        F::Bc3p => [bc4, col(a == 255 && c3)].concat(),
+        F::Rxgb => [bc4, col(corner(g) && corner(b))].concat(),
+        F::Bc3n => [bc4, col(corner(g))].concat(),
+        F::Bc4u => bc4,
+        F::Bc5u => {
+            if q == 'U' {
+                vec![]
+            } else {
+                vec![(0, 8), (8, 8)]
+            }
+        }
+        F::Bc4s | F::Bc5s => vec![],
+    }
+}
+
 // ---------------------------------------------------------------------------------------------
 // run
 
 struct Case {
+    class: String,
     f: F,
     o: Opts,
     img: Img,
@@ -818,7 +854,7 @@ fn parse(line: &str) -> Option<Case> {
     if blocks.len() != nb * f.bpb() {
         return None;
     }
-    Some(Case { f, o, img, wit, ok3, blocks })
+    Some(Case { class: t[0].to_string(), f, o, img, wit, ok3, blocks })
 }
 
 pub fn run(line: &str) -> Option<(String, Vec<String>)> {
@@ -826,7 +862,7 @@ pub fn run(line: &str) -> Option<(String, Vec<String>)> {
         Some(c) => c,
         None => return Some(("bad-case".into(), vec![])),
     };
-    let Case { f, o, img, wit, ok3: _, blocks } = case;
+    let Case { class, f, o, img, wit, ok3: _, blocks } = case;
     let mut msgs = vec![];
     let (wb, hb) = (img.blocks_w(), img.blocks_h());
     let nb = wb * hb;
@@ -848,7 +884,29 @@ pub fn run(line: &str) -> Option<(String, Vec<String>)> {
         ports.push(if portable(f, blk, m) { '1' } else { '0' });
         hashes.push_str(&format!("{:08x}", hash_block(&dec[b])));
     }
-    let res = format!("ok {nb} {shapes} {ports} {hashes}");
+    // bytes of the emitted blocks at the places the discrete encoder model (Enc13.predictSingle) predicts
+    let pred = if (class == "grey" || class == "rand1" || class == "corner")
+        && img.prec == InPrec::Rgba8
+        && o.d == 'N'
+        && img.h == 4
+        && img.w == 4 * nb
+    {
+        let mut parts = vec![];
+        for b in 0..nb {
+            let c = &img.data[16 * b..16 * b + 4];
+            let pieces = predicted_pieces(f, o.q, [c[0], c[1], c[2], c[3]]);
+            if pieces.is_empty() {
+                parts.push("-".to_string());
+            } else {
+                let blk = &blocks[b * bpb..(b + 1) * bpb];
+                parts.push(pieces.iter().map(|&(off, len)| format!("{}:{}", off, hex_encode(&blk[off..off + len]))).collect::<Vec<_>>().join(","));
+            }
+        }
+        parts.join(";")
+    } else {
+        "-".to_string()
+    };
+    let res = format!("ok {nb} {shapes} {ports} {hashes} {pred}");
 
     // oracle: fresh encode
     match lib_encode(f, o, &img) {
@@ -1192,6 +1250,21 @@ pub fn gen(seed: u64, thorough: bool) -> Vec<String> {
                 let cols: Vec<[u8; 4]> = (0..4).map(|i| if i == 0 { [0, 0, 0, 255] } else { rand_color(&mut rng) }).collect();
                 let img = block_row(4, |b, p| if b == 3 { [cols[3][0], cols[3][1], cols[3][2], 255] } else if b == 2 { [cols[2][0], cols[2][1], cols[2][2], if p % 2 == 0 { 0 } else { 255 }] } else { cols[b] });
                 specs.push(Spec { class: "dither1", f, o, img, wit: None });
+            }
+        }
+        // K. the 8 corner colours (exactly representable 5:6:5 colours) x alpha, incl. Unreasonable
+        for &q in &['F', 'N', 'H', 'U'] {
+            for &m in &mets {
+                for &a in &[255u8, 0, 127, 128] {
+                    for half in 0..2 {
+                        let o = Opts { q, m, d: 'N' };
+                        let img = block_row(4, |b, _| {
+                            let k = half * 4 + b;
+                            [if k & 1 != 0 { 255 } else { 0 }, if k & 2 != 0 { 255 } else { 0 }, if k & 4 != 0 { 255 } else { 0 }, a]
+                        });
+                        specs.push(Spec { class: "corner", f, o, img, wit: None });
+                    }
+                }
             }
         }
         // H. Unreasonable on a small subset
